@@ -125,16 +125,29 @@ Definition all_paths (l : list fs) : list path := concat (map (map fst) l).
 (* one run of the model, compared with one observed run: outcome, call log, and every file.
    Files written by siblings of an unparseable generator may or may not have been written (sync.Map order):
    there the observation must equal one of the two extreme orders. *)
-Definition run_mismatch (a : args) (w : world) (gens : list sgen) (tbl : list (bytes * option bytes))
+Definition run_mismatch_with (fixed : bool) (a : args) (w : world) (gens : list sgen) (tbl : list (bytes * option bytes))
   (before after : fs) (tr : trace) (out : obs_outcome) : bool :=
   let gs := map script_gen gens in
-  let '(s_max, m_tr, m_out) := exec (case_env code_fixed true tbl) a w gs before in
-  let s_min := exec_fs (case_env code_fixed false tbl) a w gs before in
+  let '(s_max, m_tr, m_out) := exec (case_env fixed true tbl) a w gs before in
+  let s_min := exec_fs (case_env fixed false tbl) a w gs before in
   negb (outcome_eqb m_out out)
   || negb (list_eqb event_eqb m_tr tr)
   || negb (forallb (fun q => content_eqb (fs_lookup q after) (fs_lookup q s_max)
                              || content_eqb (fs_lookup q after) (fs_lookup q s_min))
                    (all_paths [before; after; s_max; s_min])).
+
+(* C07 owns the ErrIgnore rule: its comparison is against the repaired code only. *)
+Definition run_mismatch := run_mismatch_with code_fixed.
+
+(* C05 and C02 do not depend on how an alias generator's ErrIgnore is treated (defect #26, decided by C07): their
+   comparison accepts the model of the repaired code or, failing that, of the code before that repair, so that
+   they raise no alarm of their own on a tree without that fix.  (The second model is only evaluated when the first
+   disagrees.) *)
+Definition run_mismatch_either (a : args) (w : world) (gens : list sgen) (tbl : list (bytes * option bytes))
+  (before after : fs) (tr : trace) (out : obs_outcome) : bool :=
+  if run_mismatch_with true a w gens tbl before after tr out
+  then run_mismatch_with false a w gens tbl before after tr out
+  else false.
 
 (* ---------- specification-level helpers (used by the [holds] predicates; they do not run the model) ---------- *)
 
